@@ -378,4 +378,79 @@ theorem serverView_no_trailer_header (m : Msg) (e : Bool) :
   simp only
   exact get_del_same _ _
 
+/-! ## N5 — end to end: no non-hop-by-hop field is ever dropped -/
+
+theorem mem_dropWhile_of_not {α : Type} (p : α → Bool) (l : List α) (x : α) (hx : x ∈ l)
+    (hp : p x = false) : x ∈ l.dropWhile p := by
+  induction l with
+  | nil => cases hx
+  | cons a as ih =>
+    rw [List.dropWhile_cons]
+    split
+    · rcases List.mem_cons.mp hx with rfl | h
+      · simp_all
+      · exact ih h
+    · exact hx
+
+/-- ':' (58) is not a token byte, so a valid name (lower-cased or not) is not a pseudo-header name. -/
+theorem not_pseudo_of_valid {k : Str} (hv : ValidName k) (v : Str) :
+    Field.isPseudo ⟨lower k, v⟩ = false := by
+  obtain ⟨hne, hall⟩ := hv
+  cases k with
+  | nil => exact absurd rfl hne
+  | cons b bs =>
+    have hb := (hall b (List.mem_cons_self ..)).2
+    have h58 : lowerByte b ≠ 58 := by
+      intro h
+      have : b = 58 := by unfold lowerByte at h; grind
+      subst this
+      exact absurd hb (by decide)
+    unfold Field.isPseudo lower
+    simp only [List.map_cons]
+    split
+    · rename_i heq
+      injection heq with h1 _
+      exact absurd h1 h58
+    · rfl
+
+theorem valid_ne_protocol {k : Str} (hv : ValidName k) : k ≠ str ":protocol" := by
+  intro h
+  have h58 : (58 : Nat) ∈ k := by rw [h]; decide +kernel
+  exact absurd (hv.2 58 h58).2 (by decide)
+
+theorem canonKey_ne_of_lower_ne (k lit Lit : Str) (hl : lower Lit = lit) (h : lower k ≠ lit) :
+    canonKey k ≠ Lit := by
+  intro he
+  apply h
+  rw [← lower_canonKey_any k, he, hl]
+
+/-- N5 (headline): for every submitted request, every header field with a valid name that is not
+one of the specially treated names reaches the handler, under the canonical key, with every one of
+its values. Hypotheses: `ValidName k` (the Transport refuses other names, `validateHeaders`; the
+model does not model that refusal), `lower k ∉ specialReqNames`. -/
+theorem normalize_keeps_field_valid (r : Req) (k : Str) (vv : List Str) (hm : (k, vv) ∈ r.header)
+    (hv : ValidName k) (h : lower k ∉ specialReqNames) :
+    ∀ v ∈ vv, v ∈ (normalize r).header.get (canonKey k) := by
+  intro v hvv
+  have hwire := clientNorm_keeps_field r k vv hm h (valid_ne_protocol hv) v hvv
+  have hreg : (⟨lower k, v⟩ : Field) ∈ regularFields (clientNorm r).headers :=
+    mem_dropWhile_of_not _ _ _ hwire (not_pseudo_of_valid hv v)
+  obtain ⟨_, _, _, h4, h5, _⟩ := not_special h
+  have hck : canonKey (lower k) = canonKey k := canonKey_lower hv
+  have hc : canonKey k ≠ str "Cookie" :=
+    canonKey_ne_of_lower_ne k (str "cookie") (str "Cookie") (by decide +kernel) h4
+  have ht : canonKey k ≠ str "Trailer" :=
+    canonKey_ne_of_lower_ne k (str "trailer") (str "Trailer") (by decide +kernel) h5
+  have := serverView_keeps_field (clientNorm r) r.earlyEnd ⟨lower k, v⟩ hreg
+    (by show canonKey (lower k) ≠ _; rw [hck]; exact hc)
+    (by show canonKey (lower k) ≠ _; rw [hck]; exact ht)
+  simp only [hck] at this
+  exact this
+
+/-- N5 as stated in the task (the hypothesis `k ≠ ":protocol"` follows from `ValidName k`). -/
+theorem normalize_keeps_field (r : Req) (k : Str) (vv : List Str) (hm : (k, vv) ∈ r.header)
+    (hv : ValidName k) (h : lower k ∉ specialReqNames) (_hp : k ≠ str ":protocol") :
+    ∀ v ∈ vv, v ∈ (normalize r).header.get (canonKey k) :=
+  normalize_keeps_field_valid r k vv hm hv h
+
 end NetVerif.Proofs.C14Norm
